@@ -154,7 +154,7 @@ func c01Roots(p *core.Prog) (roots []*ssa.Function, desc map[*ssa.Function]strin
 func c01(c *Ctx) {
 	p, r := c.P, c.R
 	r.Technique = "panic-site audit over the peer-reachable call graph: the Go compiler's own prove pass (-d=ssa/check_bce) lists every bounds check it cannot eliminate, each is mapped to its syntax node and function and must be covered by a hand-confirmed triage entry; plus type-assertion/explicit-panic inventory, definite-nil-receiver check, and a blocking-channel-operation rule for the synchronous part of talk handlers"
-	r.Explanation = "Decides, for shisui's own code reachable from a peer-input entry point (registered talk handlers, the processors of TALKRESP payloads, every ValidateContent and every ContentStorage Get/Put implementation, and everything they call through static calls, closures and module-internal interface dispatch): (R1) every index / slice / slice-to-array conversion whose bounds check the compiler's prove pass could not eliminate is listed in the triage table with the invariant that protects it - a new unproven site (e.g. because a length check in front of it was removed or weakened, which turns a compiler-proved site into a reported one) is a violation naming function and expression; (R3) every type assertion without comma-ok and every explicit panic / Must* call in that set is listed likewise; (R4) no method is called on, and no field read through, a pointer variable that is definitely nil (declared and never assigned); (R5) a talk handler performs no channel send or receive synchronously outside a select with a default or cancellation case; (R6) handler dispatch switches on message codes fall through to a nil reply / error for unknown codes; (R8) a pointer field that the code itself sets to nil to mean 'gone' is dereferenced on peer-driven code (handlers and the routing-table loop) only after a non-nil test of that field on every path; (R9) the result of a module function that returns nil on one path and an object on another is dereferenced, used as a method receiver or boxed into an interface on peer-driven code only after a nil test of that result, or the site is in the triage table with the reason why nil cannot arrive; (R10) a plain map kept in a struct field is written on talk-handler code (which discv5 runs concurrently) only with a mutex of the same struct held. Not decided: absence of panics as such (sites in the table are trusted to their written reason), panics inside dependencies (rlp, ztyp, zrnt, fastssz, pebble, utp-go, discv5), memory exhaustion, goroutine leaks, termination in general."
+	r.Explanation = "Decides, for shisui's own code reachable from a peer-input entry point (registered talk handlers, the processors of TALKRESP payloads, every ValidateContent and every ContentStorage Get/Put implementation, and everything they call through static calls, closures and module-internal interface dispatch): (R1) every index / slice / slice-to-array conversion whose bounds check the compiler's prove pass could not eliminate is listed in the triage table with the invariant that protects it - a new unproven site (e.g. because a length check in front of it was removed or weakened, which turns a compiler-proved site into a reported one) is a violation naming function and expression; (R3) every type assertion without comma-ok and every explicit panic / Must* call in that set is listed likewise; (R4) no method is called on, and no field read through, a pointer variable that is definitely nil (declared and never assigned); (R5) a talk handler performs no channel send or receive synchronously outside a select with a default or cancellation case; (R6) handler dispatch switches on message codes fall through to a nil reply / error for unknown codes; (R8) a pointer field that the code itself sets to nil to mean 'gone' is dereferenced on peer-driven code (handlers and the routing-table loop) only after a non-nil test of that field on every path; (R9) the result of a module function that returns nil on one path and an object on another is dereferenced, used as a method receiver or boxed into an interface on peer-driven code only after a nil test of that result, or the site is in the triage table with the reason why nil cannot arrive; (R10) a plain map kept in a struct field is written on talk-handler code (which discv5 runs concurrently) only with a mutex of the same struct held. (R11) the lookup's in-flight counter is exact - every store to it is the initial value of a fresh lookup, the seeding step (1 with the one seeded reply while it is still negative), +1, or -1 after a receive from the reply channel - so run() returning means no worker is alive and the content lookup's close(resultChannel) cannot meet a late send. Not decided: absence of panics as such (sites in the table are trusted to their written reason), panics inside dependencies (rlp, ztyp, zrnt, fastssz, pebble, utp-go, discv5), memory exhaustion, goroutine leaks, termination in general."
 	r.Assumptions = []string{"the Go compiler's prove pass is sound (a bounds check it removes cannot fail)", "triage reasons were confirmed by reading the code at the audited commit; the tables are keyed by function+expression, never by line"}
 	r.Floor("R1.bounds", 100)
 	r.Floor("R5.blocking-ops", 2)
@@ -162,6 +162,7 @@ func c01(c *Ctx) {
 	r.Floor("R7.tagged-union", 8)
 	r.Floor("R8.nil-sentinel", 3)
 	r.Floor("R9.nil-result", 3)
+	r.Floor("R11.workers-joined", 4)
 
 	roots, desc := c01Roots(p)
 	for _, f := range roots {
@@ -577,6 +578,9 @@ func c01other(c *Ctx, roots []*ssa.Function, reach map[*ssa.Function]bool, tab *
 	c01NilSentinel(c, reach)
 	c01NilReturn(c, reach, tab)
 	c01SharedMaps(c, roots, c01RootDesc(p))
+	// R11: the content lookup closes its result channel when run() returns; run() returns only
+	// when the in-flight counter says no worker is left, so the counter must be exact
+	lookupCounterExact(c, "R11.workers-joined")
 }
 
 // locallyGuarded re-derives, for a site the compiler could not prove, a guard the checker can
